@@ -65,12 +65,27 @@ def new_writer(cfg, path):
     return h
 
 
-def field_array(cfg, fbits):
-    """The array handed to addField: Scalar (nVar,), Rectilinear (nVar, *grid)."""
+LAYOUTS = ('C', 'F', 'strided', 'reversed')
+
+
+def field_array(cfg, fbits, layout='C'):
+    """The array handed to addField: Scalar (nVar,), Rectilinear (nVar, *grid).  `layout` is how the same logical array
+    lies in memory: C-contiguous, Fortran-contiguous (what `u.T` of an (nX, nVar) solver array or a Fortran-wrapped
+    solver gives), every second element of a larger buffer, or a reversed view."""
     a = np.frombuffer(fbits, dtype=cfg_dtype(cfg)).copy()
     if cfg['cls'] == 'Rectilinear':
         a = a.reshape((cfg['nVar'], *cfg['grid']))
-    return a
+    if layout == 'F':
+        b = np.asfortranarray(a)
+    elif layout == 'strided':
+        big = np.zeros(a.shape[:-1] + (2 * a.shape[-1],), dtype=a.dtype)
+        big[..., ::2] = a
+        b = big[..., ::2]
+    elif layout == 'reversed':
+        b = a[..., ::-1].copy()[..., ::-1]
+    else:
+        return a
+    return b
 
 
 def time_value(tbits):
